@@ -109,17 +109,34 @@ def enc_ix(ix):
     return "[" + ";".join(out) + "]"
 
 
-def py_ix(ix, bool_as_array=True):
+def py_ix(ix, bool_as_array=True, seqk=0):
+    """The Python index tuple.  `seqk` chooses, per sequence entry (2 bits each), HOW an integer or
+    boolean sequence is handed to cfdm: list / numpy int64 array / numpy int32 array for integers,
+    numpy bool array / list of bool for booleans.  The meaning of the index (and so the protocol
+    line of the model) does not depend on it."""
     out = []
+    j = 0
     for t in ix:
         if t[0] == "i":
             out.append(int(t[1]))
         elif t[0] == "s":
             out.append(slice(t[1], t[2], t[3]))
         elif t[0] == "l":
-            out.append(list(t[1]))
+            k = (seqk >> (2 * j)) & 3
+            j += 1
+            if k == 1:
+                out.append(np.array(t[1], dtype="int64"))
+            elif k == 3:
+                out.append(np.array(t[1], dtype="int32"))
+            else:
+                out.append(list(t[1]))
         elif t[0] == "b":
-            out.append(np.array(t[1], dtype=bool))
+            k = (seqk >> (2 * j)) & 3
+            j += 1
+            if k == 1:
+                out.append([bool(v) for v in t[1]])
+            else:
+                out.append(np.array(t[1], dtype=bool))
         elif t[0] == "e":
             out.append(Ellipsis)
     return tuple(out)
@@ -185,6 +202,11 @@ def file_data(shape, backend):
     return f.data
 
 
+def gen_seqk(rng):
+    # half of the cases hand every sequence over in the plain form (list / bool array)
+    return 0 if rng.random() < 0.5 else rng.randrange(1 << 8)
+
+
 def gen(rng, tier, n):
     n_get = int(n * 0.5)
     n_set = int(n * 0.3)
@@ -196,7 +218,7 @@ def gen(rng, tier, n):
         recv = rng.choices(["data", "masked", "indexer", "nc4", "h5"], [5, 3, 2, 1, 1])[0]
         if recv in ("nc4", "h5") and not shape:
             recv = "data"
-        payload = dict(shape=shape, ix=ix, recv=recv, mseed=rng.randrange(1 << 30))
+        payload = dict(shape=shape, ix=ix, recv=recv, mseed=rng.randrange(1 << 30), seqk=gen_seqk(rng))
         yield mk_get(payload)
     for _ in range(n_set):
         shape = gen_shape(rng, allow_scalar=rng.random() < 0.1)
@@ -213,12 +235,12 @@ def gen(rng, tier, n):
         # leading axes may only be dropped if they would broadcast anyway
         vshape = vs[drop:]
         masked = rng.random() < 0.08
-        payload = dict(shape=shape, ix=ix, vshape=vshape, masked=masked, mseed=rng.randrange(1 << 30))
+        payload = dict(shape=shape, ix=ix, vshape=vshape, masked=masked, mseed=rng.randrange(1 << 30), seqk=gen_seqk(rng))
         yield mk_set(payload)
     for _ in range(n_brev):
         nn = rng.randint(1, 7)
         t = gen_axis_index(rng, nn, ("s", "s", "l", "l", "i", "b"))
-        yield mk_brev(dict(n=nn, sel=t))
+        yield mk_brev(dict(n=nn, sel=t, seqk=gen_seqk(rng)))
     for _ in range(n_field):
         fi = rng.randrange(8)
         yield mk_field(dict(field=fi, iseed=rng.randrange(1 << 30)))
@@ -230,7 +252,7 @@ def mk_get(p):
     p["ix"] = [tuple(list(t[:1]) + [list(x) if isinstance(x, (list, tuple)) else x for x in t[1:]]) for t in p["ix"]]
     line = f"C03.get shape={fmt_list(p['shape'])} ix={enc_ix(p['ix'])}"
     tags = ["recv:" + p["recv"]] + ["ix:" + t[0] for t in p["ix"]]
-    return Case("C03.get", p, line, key=line + p["recv"], nontrivial=not trivial_ix(p["ix"]), tags=tags)
+    return Case("C03.get", p, line, key=line + p["recv"] + str(p.get("seqk", 0)), nontrivial=not trivial_ix(p["ix"]), tags=tags)
 
 
 def mk_set(p):
@@ -239,7 +261,7 @@ def mk_set(p):
     line = None if p["masked"] else f"C03.set shape={fmt_list(p['shape'])} ix={enc_ix(p['ix'])} vshape={fmt_list(p['vshape'])}"
     nlist = sum(1 for t in p["ix"] if t[0] in ("l", "b"))
     tags = [f"set:listaxes={min(nlist, 3)}"] + (["set:masked"] if p["masked"] else [])
-    key = f"set {p['shape']} {enc_ix(p['ix'])} {p['vshape']} {p['masked']}"
+    key = f"set {p['shape']} {enc_ix(p['ix'])} {p['vshape']} {p['masked']} {p.get('seqk', 0)}"
     return Case("C03.set", p, line, key=key, nontrivial=not trivial_ix(p["ix"]), tags=tags)
 
 
@@ -289,7 +311,7 @@ def impl(c):
     if c.stream == "C03.get":
         shape = p["shape"]
         a = base_array(shape, p["mseed"], p["recv"] == "masked")
-        ix = py_ix(p["ix"])
+        ix = py_ix(p["ix"], seqk=p.get("seqk", 0))
         try:
             if p["recv"] in ("data", "masked"):
                 d = C.Data(a.copy())
@@ -316,7 +338,7 @@ def impl(c):
         a = base_array(shape, p["mseed"], False)
         size = int(np.prod(shape)) if shape else 1
         d = C.Data(a.copy() + 1000)  # originals are >= 1000
-        ix = py_ix(p["ix"])
+        ix = py_ix(p["ix"], seqk=p.get("seqk", 0))
         if p["masked"]:
             v = C.masked
         else:
@@ -336,7 +358,7 @@ def impl(c):
         b[:, 0] = np.arange(n) * 10.0 - 5
         b[:, 1] = np.arange(n) * 10.0 + 5
         dc.set_bounds(C.Bounds(data=C.Data(b)))
-        ix = py_ix([p["sel"]])
+        ix = py_ix([p["sel"]], seqk=p.get("seqk", 0))
         try:
             r = dc[ix]
         except Exception as e:
@@ -446,8 +468,10 @@ def impl_field(c):
     c.payload["fshape"] = shape
     fail = None
     before = f.copy()
+    seqk = 0 if rng.random() < 0.5 else rng.randrange(1 << 8)
+    c.payload["seqk"] = seqk
     try:
-        g = f[py_ix(ix)]
+        g = f[py_ix(ix, seqk=seqk)]
     except IndexError:
         g = None
     except Exception as e:
@@ -521,7 +545,32 @@ def _neg_start_below(ix, shape):
                for t, n in zip(_full_ix(ix, shape), shape))
 
 
+def _has_bool_list(p, ix):
+    """some boolean sequence of the index is handed over as a Python list of bool (see py_ix)."""
+    seqk = p.get("seqk", 0)
+    j = 0
+    for t in ix:
+        if t[0] in ("l", "b"):
+            k = (seqk >> (2 * j)) & 3
+            j += 1
+            if t[0] == "b" and k == 1:
+                return True
+    return False
+
+
 def classify(c):
+    sig = _classify(c)
+    if sig:
+        return sig
+    p = c.payload
+    ixs = p.get("ix") if c.stream != "C03.brev" else [p["sel"]]
+    if ixs and _has_bool_list(p, ixs) and c.stream in ("C03.get", "C03.set", "C03.brev", "C03.field"):
+        # fixed in /repo (see known_findings.json): reported again if it returns
+        return "boolean-list-index-taken-as-integers-0-1"
+    return None
+
+
+def _classify(c):
     p = c.payload
     if c.stream == "C03.get":
         shape, ix = p["shape"], p["ix"]
